@@ -38,15 +38,19 @@ SendChoices(t) ==
 
 WriteSome(t) == \E snd \in SendChoices(t) : Write(t, snd)
 ReadSome(t)  == \E i \in 0 .. (Len(net[t]) - 1) : Read(t, i)
+NewSome      == \E c \in Conns, sz \in 1 .. MaxChunks : NewMessage(c, nmsg + 1, sz)
+DupSome(t)   == \E i \in 0 .. (Len(net[t]) - 1) : Dup(t, i)
+LossSome(t)  == \E i \in 0 .. (Len(net[t]) - 1) : Loss(t, i)
 TimerKinds   == {"resend", "ack", "nack"}
 
 Next ==
-  \/ \E c \in Conns, sz \in 1 .. MaxChunks : NewMessage(c, nmsg + 1, sz)
+  \/ NewSome
   \/ \E t \in Transports : WriteSome(t)
   \/ \E t \in Transports : ReadSome(t)
   \/ \E t \in Transports : EncHdr(t)
   \/ \E k \in TimerKinds, c \in Conns : Timer(k, c)
-  \/ \E t \in Transports : \E i \in 0 .. (Len(net[t]) - 1) : Dup(t, i) \/ Loss(t, i)
+  \/ \E t \in Transports : DupSome(t)
+  \/ \E t \in Transports : LossSome(t)
   \/ Settle
 
 Fairness ==
